@@ -85,6 +85,26 @@ def run_case(data):
     else:
         s = Solo(client, validate_inbound_headers=validate, normalize_inbound_headers=normalize,
                  header_encoding=enc)
+    if client and validate and normalize and enc is None and not late_cfg and ch.chance(128):
+        # a connection built without a configuration object gets the defaults - whatever another such connection in
+        # the same process does to its own configuration
+        from ..drive import h2
+        s = Solo(True, conn=h2.connection.H2Connection())
+        decoy = h2.connection.H2Connection()
+        decoy.config.validate_inbound_headers = False
+        decoy.config.normalize_inbound_headers = False
+        decoy.config.header_encoding = 'utf-8'
+        r.labels.add('default-constructed-next-to-a-reconfigured-one')
+    if ch.chance(24):
+        # an assignment the configuration refuses (not a bool) leaves the switch as it was
+        name = ch.pick(['validate_inbound_headers', 'normalize_inbound_headers'])
+        try:
+            setattr(s.c.config, name, ch.pick([None, 0, '', 1, 'yes']))
+        except ValueError:
+            r.labels.add('refused-config-assignment')
+        else:
+            r.violate('C15:non-bool-switch-accepted:%s' % name, '')
+            return r
     s.start()
     block = raw_block([(n, v, nv) for (n, v), nv in zip(fs, never)])
     o = deliver(s, kind, block, client, hist, late_cfg)
